@@ -389,6 +389,8 @@ class C08(Check):
         terms = [77] if k.random() < 0.6 else [77, 1234]
         knobs = {"terminals": terms, "entropy_seed": k.getrandbits(32), "second_observer": True, "reuse_parsed": k.random() < 0.3,
                  "inline_observers": k.random() < 0.25, "twin_lag": k.choice([1, 4, 9]) if k.random() < 0.12 else 0}
+        if k.random() < 0.2:
+            knobs["direct_terminal"] = True  # bursts are fed to Terminal.process_incoming_burst(burst, timeslot) directly, not through the watcher
         rates = {}
         if arm == "faults":
             if f.random() > 0.1:
@@ -549,7 +551,7 @@ class C08(Check):
             yield {kk: v for kk, v in case.items() if kk != "cotenant"}
         if kn.get("raising_observer"):
             yield dict(case, knobs={kk: v for kk, v in kn.items() if kk != "raising_observer"})
-        for kk in ("reuse_parsed", "inline_observers", "twin_lag"):
+        for kk in ("reuse_parsed", "inline_observers", "twin_lag", "direct_terminal"):
             if kn.get(kk):
                 yield dict(case, knobs=dict(kn, **{kk: False}))
         if len(kn.get("terminals", [])) > 1:
